@@ -105,7 +105,7 @@ RENAMES = [[["c", "a"]], [["c", "b"]], [["c", "a"], ["d", "b"]], [["a", "b"], ["
            [["c", "z"]], [["a", "a"]], [["a", "b"]]]
 MODIFIES = [[["a", "const7"]], [["a", "none"]], [["c", "get_a"]], [["a", "get_b"]], [["a", "a_inc"]],
             [["c", "attr_a"]], [["b", "nkeys"]], [["a", "const7"], ["c", "get_b"]], [["c", "const7"], ["d", "none"]]]
-MODIFY_IFS = [[["a", "const7"]], [["c", "get_a"]], [["a", "a_inc"]], [["a", "const7"], ["c", "const7"]]]
+MODIFY_IFS = [[["a", "const7"]], [["c", "get_a"]], [["a", "a_inc"]], [["a", "const7"], ["c", "const7"]], [["c", "nkeys_reentrant"]]]
 FILLS = [[], [["a", None]], [["a", 0]], [["b", "y"]], [["c", 0]], [["a", 0], ["b", "y"]]]
 NEW_ITEM = {"a": 2, "b": "x"}
 
@@ -114,7 +114,7 @@ def e1_ops(n):
     """All operations for a list of length n (arguments that depend on n resolved)."""
     ops = []
     for name in ("filter", "filter_out"):
-        for p in ("true", "false", "a_eq_1", "a_is_none", "a_value", "b_value"):
+        for p in ("true", "false", "a_eq_1", "a_is_none", "a_value", "b_value", "a_eq_1_reentrant"):
             ops.append({"op": name, "pred": p})
         for kv in KV_SETS:
             ops.append({"op": name, "kv": kv})
